@@ -212,6 +212,8 @@ func (p *peer) Dial(addr string, protoFunc ...ProtoFunc) (Session, *Status) {
 		sess.socket.SetID(sess.LocalAddr().String())
 		if stat := p.pluginContainer.postDial(sess, false); !stat.OK() {
 			conn.Close()
+			// a hook may have named the session (SetID puts it into the index)
+			p.sessHub.deleteIf(sess.ID(), sess)
 			return stat.Cause()
 		}
 		return nil
